@@ -89,6 +89,7 @@ pub struct PathResult {
     pub nodes: usize,
     pub pc_model: Option<(HashMap<String, f64>, Vec<TapeSample>)>,
     pub notes: Vec<String>,
+    pub fallback_used: u64,
 }
 
 pub struct PathState {
@@ -107,6 +108,8 @@ pub struct PathState {
     notes: Vec<String>,
     cfg: Cfg,
     solver: Solver,
+    solver2: Solver,
+    pub fallback_used: u64,
     /// decision log for harness introspection: (cond id, value)
     pub log: Vec<(u32, bool)>,
     want_pc_model: bool,
@@ -118,7 +121,7 @@ pub struct PathState {
 
 thread_local! {
     pub static ST: RefCell<Option<PathState>> = RefCell::new(None);
-    static SOLVER_CACHE: RefCell<Option<Solver>> = RefCell::new(None);
+    static SOLVER_CACHE: RefCell<Option<(Solver, Solver)>> = RefCell::new(None);
 }
 
 pub struct CutPath(pub String);
@@ -198,7 +201,16 @@ impl PathState {
         }
         let names: Vec<String> = if model { vars.iter().map(|v| format!("v{}", v)).collect() } else { vec![] };
         let to = self.cfg.query_timeout_s;
-        let (v, m) = self.solver.check(&body, nl, to, &names);
+        let (mut v, mut m) = self.solver.check(&body, nl, to.min(3.0), &names);
+        if v == Verdict::Unknown {
+            // portfolio: the other z3 generation often decides what the first one does not
+            let (v2, m2) = self.solver2.check(&body, nl, to, &names);
+            if v2 != Verdict::Unknown {
+                self.fallback_used += 1;
+                v = v2;
+                m = m2;
+            }
+        }
         let mut out = HashMap::new();
         for (k, val) in m {
             if let Some(idx) = k.strip_prefix('v').and_then(|s| s.parse::<usize>().ok()) {
@@ -331,7 +343,7 @@ pub fn assume(c: u32) {
 /// stronger form of the negation used to obtain a counterexample with margin.
 pub fn prove(name: &str, c: u32, strong_neg: Option<u32>) {
     with_st(|st| {
-        let t0 = st.solver.seconds;
+        let t0 = st.solver.seconds + st.solver2.seconds;
         if c == C_TRUE {
             st.obligations.push(ObRecord {
                 name: name.to_string(),
@@ -384,7 +396,7 @@ pub fn prove(name: &str, c: u32, strong_neg: Option<u32>) {
                 rec.tapes = st.tapes_from_model(&rec.model);
             }
         }
-        rec.solver_s = st.solver.seconds - t0;
+        rec.solver_s = st.solver.seconds + st.solver2.seconds - t0;
         st.obligations.push(rec);
     })
 }
@@ -433,8 +445,14 @@ fn panic_message(p: &Box<dyn std::any::Any + Send>) -> String {
 /// Execute one path with the given decision tape.
 pub fn run_path(cfg: &Cfg, tape: Vec<bool>, body: &(dyn Fn() + Sync), want_pc_model: bool) -> PathResult {
     silence_panics();
-    let solver = SOLVER_CACHE.with(|c| c.borrow_mut().take()).unwrap_or_else(|| Solver::new(SolverKind::Z3));
-    let (q0, s0, e0, t0) = (solver.queries, solver.seconds, solver.errors, solver.timeouts);
+    let (solver, solver2) = SOLVER_CACHE.with(|c| c.borrow_mut().take()).unwrap_or_else(|| {
+        if std::env::var("SYMX_SOLVER").map_or(false, |s| s == "z3new") {
+            (Solver::new(SolverKind::Z3New), Solver::new(SolverKind::Z3))
+        } else {
+            (Solver::new(SolverKind::Z3), Solver::new(SolverKind::Z3New))
+        }
+    });
+    let (q0, s0, e0, t0) = (solver.queries + solver2.queries, solver.seconds + solver2.seconds, solver.errors, solver.timeouts + solver2.timeouts);
     let st = PathState {
         arena: Arena::new(),
         pc: vec![],
@@ -451,6 +469,8 @@ pub fn run_path(cfg: &Cfg, tape: Vec<bool>, body: &(dyn Fn() + Sync), want_pc_mo
         notes: vec![],
         cfg: cfg.clone(),
         solver,
+        solver2,
+        fallback_used: 0,
         log: vec![],
         want_pc_model,
         pc_model: None,
@@ -498,12 +518,13 @@ pub fn run_path(cfg: &Cfg, tape: Vec<bool>, body: &(dyn Fn() + Sync), want_pc_mo
     res.notes = st.notes;
     res.nodes = st.arena.nodes.len();
     res.pc_model = st.pc_model;
-    res.n_queries = st.solver.queries - q0;
-    res.solver_s = st.solver.seconds - s0;
+    res.n_queries = st.solver.queries + st.solver2.queries - q0;
+    res.solver_s = st.solver.seconds + st.solver2.seconds - s0;
     res.solver_errors = st.solver.errors - e0;
-    res.solver_timeouts = st.solver.timeouts - t0;
+    res.solver_timeouts = st.solver.timeouts + st.solver2.timeouts - t0;
     res.last_error = st.solver.last_error.clone();
-    SOLVER_CACHE.with(|c| *c.borrow_mut() = Some(st.solver));
+    res.fallback_used = st.fallback_used;
+    SOLVER_CACHE.with(|c| *c.borrow_mut() = Some((st.solver, st.solver2)));
     res
 }
 
@@ -691,6 +712,7 @@ pub struct Report {
     pub ob_names: HashMap<String, (usize, usize, usize)>,
     pub notes: Vec<String>,
     pub max_smt_bytes: usize,
+    pub fallback_used: u64,
 }
 
 impl Report {
@@ -771,6 +793,7 @@ pub fn explore(cfg: &Cfg, sym_body: &(dyn Fn() + Sync), nat_body: &(dyn Fn() + S
         rep.solver_s += r.solver_s;
         rep.solver_errors += r.solver_errors;
         rep.solver_timeouts += r.solver_timeouts;
+        rep.fallback_used += r.fallback_used;
         if !r.last_error.is_empty() {
             rep.last_error = r.last_error.clone();
         }
